@@ -24,18 +24,26 @@ class Node(object):
         self.clock0 = clock0          # (wall, mono, cpu) at construction (TimeLimits start)
         self.doc = getattr(obj, '__doc__', None)
 
-def build(spec, clock0_fn):
-    """build the mystic condition and its reference twin together"""
+def build(spec, clock0_fn, built=None):
+    """build the mystic condition and its reference twin together.
+    {'t': 'ref', 'i': j} re-uses the j-th node built so far in this tree (the very same
+    condition object listed twice: a legal way to write a tree)"""
     import mystic.termination as mt
+    if built is None: built = []
     t = spec['t']
+    if t == 'ref':
+        return built[spec['i'] % len(built)]
     if t in ('And', 'Or', 'When'):
-        kids = [build(s, clock0_fn) for s in spec['of']]
+        kids = [build(s, clock0_fn, built) for s in spec['of']]
         obj = getattr(mt, t)(*[k.obj for k in kids])
         n = Node(spec, obj, None); n.kids = kids
+        built.append(n)
         return n
     c0 = clock0_fn()
     obj = engine.build_term(spec)
-    return Node(spec, obj, c0)
+    n = Node(spec, obj, c0)
+    built.append(n)
+    return n
 
 def window(hist, g):
     """(cost[-g], cost[-1]) with python indexing; None if the history is not longer than g"""
